@@ -217,6 +217,8 @@ impl ClientModel {
         if let Some(o) = &self.outstanding {
             match o.write_at {
                 Some(w) => upd(w),
+                // (a deadline at the end of time is no event)
+                None if o.deadline == u64::MAX => {}
                 None => upd(o.deadline),
             }
         }
